@@ -467,6 +467,13 @@ run_scenario(const scenario *sc, const fault *f, int record, int alt, outcome *o
 
 	memset(&R.p, 0, sizeof R.p);
 	tp_pair_init(&R.p, seeds_key, 99, TP_CHUNK_WHOLE);
+	{
+		/* a third of the runs use completion-style output: bytes reach the transport at once, the engine gets the
+		   acknowledgement later (possibly after the peer's answer, possibly after it has failed) */
+		static long runno;
+		R.p.defer_acks = (runno ++ % 3) == 1;
+		if (R.p.defer_acks) vf_stat("runs_with_deferred_acks", 1);
+	}
 	R.f = NULL;                    /* no fault during the preparatory phase */
 	R.passed[0] = R.passed[1] = 0; R.pend_len[0] = R.pend_len[1] = 0;
 	R.recno[0] = R.recno[1] = 0; R.fault_applied = 0;
@@ -677,6 +684,116 @@ expect_refused(const char *name, const outcome *o, int who /* 0 client must refu
 	if (who == 1 && o->s_err == 0 && o->c_err == 0) { TP_VIOL("unauthenticated-peer-no-failure", what); return; }
 }
 
+/*
+ * Poisoned session: a first handshake fails after the ServerHello (the validator rejects the chain),
+ * the application retries on the same client context with resume_session = 1 (the documented way to
+ * "try session resumption"), and the server of the second connection - which has no key matching its
+ * certificate, so that a full handshake cannot succeed - answers with an abbreviated handshake for the
+ * session ID of the FAILED attempt, using the master secret a client that never completed a session
+ * holds (all zeros) or any value it can know. No session was ever established: the client must not
+ * become ready.
+ */
+typedef struct {
+	const br_ssl_session_cache_class *vtable;
+	unsigned version, suite;
+	unsigned char master[48];
+	int loads, saves;
+} rogue_cache;
+static rogue_cache rcache;
+
+static void
+rcache_save(const br_ssl_session_cache_class **ctx, br_ssl_server_context *sc, const br_ssl_session_parameters *params)
+{
+	rogue_cache *rc = (rogue_cache *)(void *)ctx;
+	(void)sc; (void)params;
+	rc->saves ++;
+}
+static int
+rcache_load(const br_ssl_session_cache_class **ctx, br_ssl_server_context *sc, br_ssl_session_parameters *params)
+{
+	rogue_cache *rc = (rogue_cache *)(void *)ctx;
+	(void)sc;
+	rc->loads ++;
+	params->version = (uint16_t)rc->version;
+	params->cipher_suite = (uint16_t)rc->suite;
+	memcpy(params->master_secret, rc->master, 48);
+	return 1;
+}
+static const br_ssl_session_cache_class rcache_vtable = { sizeof(rogue_cache), rcache_save, rcache_load };
+
+static void
+pre_reset_honest_validator(void *epv, void *arg)
+{
+	tp_ep *ep = epv;
+	(void)arg;
+	ep->xw->force_verdict = -1; ep->xw->force_usages = -1; ep->xw->force_pkey = NULL; ep->xw->force_null_pkey = 0;
+}
+
+static void
+poisoned_session_case(const scenario *sc, int fail_kind, int prior_session)
+{
+	tp_pair p;
+	tp_cfg cc, sv, cc2, sv2;
+	uint16_t sb[1];
+	vf_rng r;
+	vscript vs;
+	br_ssl_session_parameters sp;
+	char nm[120], what[300];
+	int calls_before;
+
+	vf_rng_init(&r, seeds_key, 90 + (uint64_t)fail_kind * 2 + (uint64_t)prior_session);
+	cfg_for(sc, &cc, &sv, sb, &r, 0);
+	snprintf(nm, sizeof nm, "poisoned-session:first-attempt-%s:%s", fail_kind == 0 ? "validator-rejects" : "transport-dies-after-server-hello",
+		prior_session ? "after-an-earlier-good-session" : "fresh-context");
+	snprintf(tp_case, sizeof tp_case, "%s auth-case=%s", scen_desc, nm);
+	tp_pair_init(&p, (uint64_t)seeds_key, 91, TP_CHUNK_WHOLE);
+	p.c.tx_key = 0x9191; p.s.tx_key = 0x1919; p.c.rx_key = p.s.tx_key; p.s.rx_key = p.c.tx_key;
+	n_auth ++;
+	vf_stat("auth_cases", 1);
+	if (prior_session) {
+		/* an honest session first: the context then holds a real master secret (unknown to the rogue) */
+		if (!tp_ep_start(&p.c, &cc) || !tp_ep_start(&p.s, &sv) || !tp_handshake(&p, 1000000)) { TP_VIOL("auth-control-failed", "honest first session failed"); tp_pair_free(&p); return; }
+		tp_run_close(&p, 0, 100000);
+		cc.reuse_ctx = 1; cc.resume = 1;
+		p.c2s.rd = p.c2s.wr = 0; p.s2c.rd = p.s2c.wr = 0;
+	}
+	/* attempt 1: fails after the ServerHello has been processed */
+	vs.verdict = BR_ERR_X509_NOT_TRUSTED; vs.pkey_kind = 0; vs.usages = -1;
+	cc.pre_reset = pre_reset_vscript; cc.pre_reset_arg = &vs;
+	tp_ep_free(&p.s);
+	if (!tp_ep_start(&p.c, &cc) || !tp_ep_start(&p.s, &sv)) { TP_VIOL("setup:reset-failed", "reset"); tp_pair_free(&p); return; }
+	if (fail_kind == 0) {
+		tp_pump_until_quiet(&p, 100000);
+	} else {
+		/* the transport dies once the client has taken the first record of the server's flight */
+		long q;
+		for (q = 0; q < 100000 && p.c.bytes_in == 0; q ++) if (!tp_pump_step(&p)) break;
+	}
+	if (tp_ep_ready(&p.c)) { TP_VIOL("unauthenticated-peer-accepted:client", "client became ready although its validator rejected the chain"); tp_pair_free(&p); return; }
+	br_ssl_engine_get_session_parameters(p.c.eng, &sp);
+	vf_distinct("poisoned_session_state", "kind%d prior%d idlen%d", fail_kind, prior_session, (int)sp.session_id_len);
+	/* attempt 2: same client context, resume_session = 1, honest validator; rogue server without the private key */
+	cc2 = cc; cc2.reuse_ctx = 1; cc2.resume = 1; cc2.pre_reset = pre_reset_honest_validator; cc2.pre_reset_arg = NULL;
+	sv2 = sv; sv2.mismatch_key = 1;
+	rcache.vtable = &rcache_vtable; rcache.version = sp.version; rcache.suite = sp.cipher_suite; rcache.loads = rcache.saves = 0;
+	memset(rcache.master, 0, 48);            /* what a context that never completed a handshake holds */
+	sv2.cache = &rcache.vtable;
+	tp_ep_free(&p.s);
+	p.c2s.rd = p.c2s.wr = 0; p.s2c.rd = p.s2c.wr = 0;
+	calls_before = p.c.xw->n_end_chain;
+	if (!tp_ep_start(&p.c, &cc2) || !tp_ep_start(&p.s, &sv2)) { TP_VIOL("setup:reset-failed", "reset (second attempt)"); tp_pair_free(&p); return; }
+	tp_pump_until_quiet(&p, 200000);
+	poke_apps(&p);
+	vf_stat("poisoned_session_cases", 1);
+	vf_stat("poisoned_session_cache_lookups", rcache.loads);
+	if (tp_ep_ready(&p.c) || p.c.ever_sendapp || p.c.rx_done > 0 || p.s.rx_done > 0) {
+		snprintf(what, sizeof what, "%s: the client resumed a session that was never established (ID taken from the failed attempt): ready=%d, validator runs in this attempt=%d, client err=%d server err=%d, data delivered c=%zu s=%zu",
+			nm, tp_ep_ready(&p.c), p.c.xw->n_end_chain - calls_before, br_ssl_engine_last_error(p.c.eng), br_ssl_engine_last_error(p.s.eng), (size_t)p.c.rx_done, (size_t)p.s.rx_done);
+		TP_VIOL("unauthenticated-peer-accepted:client", what);
+	}
+	tp_pair_free(&p);
+}
+
 static void
 auth_scenarios(long long seed)
 {
@@ -819,6 +936,11 @@ auth_scenarios(long long seed)
 				vf_stat("rogue_static_ecdh_keyx_calls", rcc.keyx_calls);
 				vf_distinct("rogue_static_ecdh", "%s/%04x/%d/%d auth_types=%x", kxn[kx], v, victim, g, rcc.auth_types);
 			}
+		}
+		/* a session ID learnt from a failed attempt must not be resumable */
+		{
+			int fk, ps;
+			for (fk = 0; fk < 2; fk ++) for (ps = 0; ps < 2; ps ++) poisoned_session_case(&sc, fk, ps);
 		}
 		/* weak server key: honest validator must refuse (RSA kx only: the weak fixture is RSA) */
 		if (kx <= TP_KX_ECDHE_RSA) {
